@@ -6,7 +6,8 @@ def check(ctx):
     prog, rep = ctx.prog, ctx.rep
     n = dis.check_precedence(ctx, rep)
     rep.floor("display tags on the all-miss path of dict_to_dis", n, 8)
-    dis.check_regex(ctx, rep)
+    rxinfo = dis.check_regex(ctx, rep)
+    dis.check_lookup_sources(ctx, rep, rxinfo)
     npush = dis.check_replacer_pushes(ctx, rep)
     nrk = dis.check_replacer_kinds(ctx, rep)
     rep.floor("replacer kind-dispatch obligations", nrk, 2)
